@@ -22,7 +22,6 @@ import (
 	"github.com/oklog/ulid/v2"
 	"github.com/prometheus/client_golang/prometheus"
 	dto "github.com/prometheus/client_model/go"
-	pmodel "github.com/thanos-io/thanos/pkg/model"
 	"github.com/prometheus/common/promslog"
 	"github.com/prometheus/prometheus/model/histogram"
 	"github.com/prometheus/prometheus/model/labels"
@@ -33,6 +32,7 @@ import (
 	"github.com/prometheus/prometheus/tsdb/index"
 	"github.com/prometheus/prometheus/util/annotations"
 	"github.com/thanos-io/objstore"
+	pmodel "github.com/thanos-io/thanos/pkg/model"
 	"pgregory.net/rapid"
 
 	"github.com/thanos-io/thanos/pkg/block"
@@ -876,9 +876,9 @@ type dynLimits struct {
 type storeKnobs struct {
 	seriesLimit, chunksLimit uint64
 	dyn                      *dynLimits // if set, overrides seriesLimit/chunksLimit per request
-	indexCache               int // 0 off, >0 max size in bytes
+	indexCache               int        // 0 off, >0 max size in bytes
 	lazy                     bool
-	estSeriesSize            uint64 // 0: option not set (64 KiB default); >0 fixed estimate
+	estSeriesSize            uint64              // 0: option not set (64 KiB default); >0 fixed estimate
 	estFromStats             map[ulid.ULID]int64 // non-nil: `thanos store` formula over IndexStats.SeriesMaxSize
 	matchRatio               float64
 	maxKeyRatio              float64
